@@ -2,7 +2,7 @@ CONSTANTS
   FlowSet = {"flows/a.yaml", "flows/b.yaml"}
   Endpoints = {"configuration", "apply_flows"}
   Methods = {"PUT", "POST"}
-  MaxNth = 4
+  MaxNth = 2
   WithBadB64 = TRUE
   MxOld = {"none", "m1"}
   GwOld = {"none"}
